@@ -130,8 +130,13 @@ def main(tier, seed, budget):
                 r = out[1]
                 ss = sigs_of(a, r)
                 if ss:
-                    # the sequential configuration itself fails: not a rank-count matter; C03's business
+                    # the sequential, fault-free run itself fails: nothing a rank count or schedule decides (DESIGN 11).
+                    # Seeded sub-bases are dropped and recorded; for the shipped bases it is reported (P = 1 is a rank count
+                    # and "generation terminates on all ranks" fails).
                     stats['ref_failed'].append([a['runname'], a['compl'], sorted(ss)])
+                    if a['basis'] is None:
+                        for s_ in ss:
+                            rep.add('P1:' + s_, dict(run_seed=0, hashseed=hs, job=dict(fn=JOB, args=a), violation=r.get('violation'), probs=r.get('probs')))
                     continue
                 refs[cfg_key(a)] = r['hashes']
                 ref_steps[cfg_key(a)] = r['steps']
